@@ -14,6 +14,7 @@ Definition op_nref (o:op) : nref :=
   | OpDropCons t ix n => if ix then NIx t n else NUq t n
   | OpAddFk t f => fkref t f
   | OpDropFk t n named => if named then NFk t n else NFkU t
+  | OpAddUUq t _ => NUqU t
   end.
 Definition drops_or_alters (o:op) : bool :=
   match o with OpDropTable _ | OpDropColumn _ _ | OpAlterColumn _ _ _ _ _ _ _ _ | OpDropCons _ _ _ | OpDropFk _ _ _ => true | _ => false end.
@@ -38,17 +39,23 @@ Section Acc.
     forall o, In o ops -> obj_accepted (op_nref o) /\ obj_accepted (NTable (op_table o)).
   Definition name_filter_ok (ops:list op) : Prop :=
     forall o, In o ops -> drops_or_alters o = true ->
-      iname NSchema = true /\ iname (NTable (op_table o)) = true /\ iname (op_nref o) = true.
+      iname (schema_ref (op_table o)) = true /\ iname (NTable (op_table o)) = true /\ iname (op_nref o) = true.
 
   (* "neither filter rejects the object": the names involved are accepted by include_name and the include_object
      calls that the unfiltered comparison would make for this operation (its table, then the object) say yes *)
-  Definition name_ok (o:op) : bool := iname NSchema && iname (NTable (op_table o)) && iname (op_nref o).
+  Definition name_ok (o:op) : bool := iname (schema_ref (op_table o)) && iname (NTable (op_table o)) && iname (op_nref o).
   (* a foreign key is matched by signature, not by name: the key an OpAddFk adds is "the same object" as a reflected key
      with the same signature, whatever that one is called; if include_name rejects that reflected name the object is
      rejected (it is then treated as absent and the metadata key is reported as added) *)
   Definition fk_twin_ok (conn:schema) (o:op) : bool :=
     match o with
     | OpAddFk tn mf => forallb (fun cf => implb (fk_sig_eqb mf cf) (iname (fkref tn cf))) (lk_fks conn tn)
+    (* likewise an unnamed unique constraint is identified by its column signature *)
+    | OpAddUUq tn u =>
+        match kfind t_name tn conn with
+        | Some c => forallb (fun k => implb (is_uq k && permb (u_cols u) (k_cols k)) (iname (kref tn k))) (t_cons c)
+                    && implb (existsb (fun v => permb (u_cols u) (u_cols v)) (t_uuqs c)) (iname (NUqU tn))
+        | None => true end
     | _ => true
     end.
   Definition table_guard (conn meta:schema) (tn:N) : bool :=
@@ -83,6 +90,7 @@ Section Acc.
         match lk_fk conn tn n with
         | Some cf => io (OFk tn cf) true (option_map (OFk tn) (fk_by_name cf (lk_fks meta tn)))
         | None => true end
+    | OpAddUUq tn u => io (OUUq tn u) false None
     end.
   Definition acc (conn meta:schema) (o:op) : bool :=
     name_ok o && fk_twin_ok conn o && table_guard conn meta (op_table o) && obj_guard conn meta o.
@@ -94,7 +102,7 @@ Definition nref_eqb (a b:nref) : bool :=
   | NSchema, NSchema => true
   | NTable t, NTable t' => N.eqb t t'
   | NColumn t c, NColumn t' c' | NUq t c, NUq t' c' | NIx t c, NIx t' c' | NFk t c, NFk t' c' => N.eqb t t' && N.eqb c c'
-  | NFkU t, NFkU t' => N.eqb t t'
+  | NFkU t, NFkU t' | NSchemaN t, NSchemaN t' | NUqU t, NUqU t' => N.eqb t t'
   | _, _ => false
   end.
 Definition okey : Type := nref * bool * bool.       (* object, reflected, compare_to is not None *)
@@ -118,11 +126,13 @@ Definition rule_rejects (r:rule) (ob:obj) (refl:bool) (cmp:option obj) : bool :=
   | RReflTabHasIx => refl && match ob with OTable t => existsb is_ix (t_cons t) | _ => false end
   | RTabHasFk => match ob with OTable t => negb (is_nil (t_fks t)) | _ => false end
   | RColFam fam => match ob with OColumn _ c => N.eqb (ty_fam (c_ty c)) fam | _ => false end
-  | RConsOnCol c => match ob with OCons _ k => memN c (k_cols k) | _ => false end
+  | RConsOnCol c => match ob with OCons _ k => memN c (k_cols k) | OUUq _ u => memN c (u_cols u) | _ => false end
   | RFkTo t => match ob with OFk _ f => N.eqb (f_rtable f) t | _ => false end
   | RCmpTabHasCol c => match cmp with Some o => tab_has_col c o | None => false end
   end.
-Record filt := mkFilt { fl_obj : list (okey*bool); fl_obj_d : bool; fl_name : list (nref*bool); fl_name_d : bool; fl_rules : list rule }.
+(* fl_attached is environment, not filter: the ATTACHed databases (schemas) the connection reports *)
+Record filt := mkFilt { fl_obj : list (okey*bool); fl_obj_d : bool; fl_name : list (nref*bool); fl_name_d : bool; fl_rules : list rule;
+                        fl_attached : list N }.
 Definition io_of (f:filt) : obj -> bool -> option obj -> bool :=
   fun ob refl cmp => assoc okey_eqb (obj_ref ob, refl, has_cmp cmp) (fl_obj f) (fl_obj_d f)
                      && negb (existsb (fun r => rule_rejects r ob refl cmp) (fl_rules f)).
@@ -136,7 +146,7 @@ Definition g20 : cfg := mkCfg true true.
 Definition model_C20 (i:c20_in) : c20_out :=
   let '(A, B, f) := i in
   mkOut20 (diff_f (io_of f) (iname_of f) g20 (reflect_sqlite A) B) (diff g20 (reflect_sqlite A) B)
-          (calls_f (io_of f) (iname_of f) (reflect_sqlite A) B).
+          (calls_f (io_of f) (iname_of f) (fl_attached f) (reflect_sqlite A) B).
 
 (* membership modulo op_eqb (CreateTableOp carries its constraints as a set) *)
 Definition inb (o:op) (l:list op) : bool := existsb (op_eqb o) l.
@@ -152,12 +162,13 @@ Definition C20_holds (i:c20_in) (out:c20_out) : Prop :=
    reflected or the metadata object of that name, compare_to is absent or the counterpart *)
 Definition objs_of (S:schema) (r:nref) : list obj :=
   match r with
-  | NSchema => []
+  | NSchema | NSchemaN _ => []
   | NTable t => match kfind t_name t S with Some tb => [OTable tb] | None => [] end
   | NColumn t c => match lk_col S t c with Some x => [OColumn t x] | None => [] end
   | NUq t n | NIx t n => match lk_cons S t n with Some k => if nref_eqb (kref t k) r then [OCons t k] else [] | None => [] end
   | NFk t n => match lk_fk S t n with Some x => if f_named x then [OFk t x] else [] | None => [] end
   | NFkU t => map (OFk t) (filter (fun f => negb (f_named f)) (lk_fks S t))
+  | NUqU t => match kfind t_name t S with Some tb => map (OUUq t) (t_uuqs tb) | None => [] end
   end.
 Definition obj_acceptedb (f:filt) (conn meta:schema) (r:nref) : bool :=
   let cands := objs_of conn r ++ objs_of meta r in
@@ -166,7 +177,7 @@ Definition check_C20 (i:c20_in) (out:c20_out) : bool :=
   let '(A, B, f) := i in
   forallb (fun o => obj_acceptedb f (reflect_sqlite A) B (op_nref o) && obj_acceptedb f (reflect_sqlite A) B (NTable (op_table o))) (o_filtered out)
   && forallb (fun o => implb (drops_or_alters o)
-                         (iname_of f NSchema && iname_of f (NTable (op_table o)) && iname_of f (op_nref o))) (o_filtered out)
+                         (iname_of f (schema_ref (op_table o)) && iname_of f (NTable (op_table o)) && iname_of f (op_nref o))) (o_filtered out)
   && conservativeb (acc (io_of f) (iname_of f) (reflect_sqlite A) B) (o_filtered out) (o_plain out).
 
 Definition tcall_eqb (a b:tcall) : bool :=
@@ -178,4 +189,6 @@ Definition tcall_eqb (a b:tcall) : bool :=
 Definition corr_C20 (i:c20_in) (out:c20_out) : bool :=
   let m := model_C20 i in
   ops_equiv (o_filtered m) (o_filtered out) && ops_equiv (o_plain m) (o_plain out) && mset_eqb tcall_eqb (o_calls m) (o_calls out).
-Definition inclass_C20 (i:c20_in) : bool := inclass_C06_core (fst i).    (* unnamed foreign keys allowed *)
+(* unnamed foreign keys allowed on both sides, unnamed unique constraints in the database; the conservativity theorem assumes the
+   metadata has no unnamed unique constraint (outside, only the decider and the exact correspondence speak) *)
+Definition inclass_C20 (i:c20_in) : bool := inclass_C06_core (fst i) && no_unnamed_uq (snd (fst i)).
